@@ -340,6 +340,7 @@ func (d *DataChannel) handleOpen(dc *datachannel.DataChannel, isRemote, isAlread
 		if err := dc.Close(); err != nil {
 			d.log.Errorf("Failed to close DataChannel that was closed during connecting state %v", err.Error())
 		}
+		d.setReadyState(DataChannelStateClosed)
 		d.onClose()
 
 		return
@@ -366,11 +367,19 @@ func (d *DataChannel) handleOpen(dc *datachannel.DataChannel, isRemote, isAlread
 	}
 
 	d.mu.Lock()
-	defer d.mu.Unlock()
-
 	if d.isGracefulClosed {
+		d.mu.Unlock()
+		// The channel was closed while it was being opened: no read loop will
+		// notice the end of the stream, so finish the close here.
+		if err := dc.Close(); err != nil {
+			d.log.Debugf("Failed to close DataChannel that was closed while opening %v", err.Error())
+		}
+		d.setReadyState(DataChannelStateClosed)
+		d.onClose()
+
 		return
 	}
+	defer d.mu.Unlock()
 
 	if !d.api.settingEngine.detach.DataChannels {
 		d.readLoopActive = make(chan struct{})
